@@ -341,7 +341,7 @@ def r4_selectors(ctx):
         r.missing("get_plural_category_for")
     else:
         t = flatp(show(fn.body))
-        if t != "{formatting::get_plural_ruleslocale,plural_rule_type.category_forcount}":
+        if not same(t, "{formatting::get_plural_ruleslocale,plural_rule_type.category_forcount}"):
             r.viol("R4:get_plural_category_for", "run-time helper changed: %s" % t, file=fn.file, line=fn.line)
         else:
             r.inst("get_plural_category_for", "get_plural_rules(locale, plural_rule_type).category_for(count())")
